@@ -25,7 +25,7 @@ type Profile struct {
 }
 
 func weighted(w map[string]int) []string {
-	order := []string{"resolve", "reserr", "state", "pick", "done", "adv", "failnew", "cancel", "allready", "bindflow", "decall", "readyrepl", "staledown", "emptypool", "saturate", "refreshcycle", "stalede", "affswap", "fbflow", "bindacross", "growmax", "multibind", "fillwm", "affburst", "flaprefresh", "rrempty", "rrstraddle", "unbindrace"}
+	order := []string{"resolve", "reserr", "state", "pick", "done", "adv", "failnew", "cancel", "allready", "bindflow", "decall", "readyrepl", "staledown", "emptypool", "saturate", "refreshcycle", "stalede", "affswap", "fbflow", "bindacross", "growmax", "multibind", "fillwm", "affburst", "flaprefresh", "rrempty", "rrstraddle", "unbindrace", "resurrect"}
 	var out []string
 	for _, k := range order {
 		for i := 0; i < w[k]; i++ {
@@ -240,6 +240,26 @@ func genStep(p *Profile, cfg *Config) *rapid.Generator[[]Op] {
 				ops = append(ops, Op{K: "pick", M: 2, Key: k2, DlMs: 1}, Op{K: "adv", Mode: 1, Idx: -1, Eps: 1}, Op{K: "done", Idx: -1, Out: 2})
 			}
 			return append(ops, Op{K: "state", Sel: 4, Key: k2, St: 2}, Op{K: "pick", M: 2, Key: k2}, Op{K: "pick", M: 2, Key: k1}, Op{K: "pick", M: 2, Key: k2})
+		case "resurrect":
+			// a channel whose old connection is shut down while its refresh is in flight comes back through the replacement;
+			// then the home of another key fails and that channel may be the only READY one left for the stand-in search
+			k := rapid.IntRange(0, 3).Draw(t, "rk")
+			k2 := (k + rapid.IntRange(1, 3).Draw(t, "rk2")) % 4
+			calls := cfg.UdCalls
+			if calls < 1 {
+				calls = 1
+			}
+			var ops []Op
+			for i := 0; i < 6; i++ {
+				ops = append(ops, Op{K: "state", Idx: i, St: 2})
+			}
+			ops = append(ops, Op{K: "pick", M: 1, Key: k}, Op{K: "pick", M: 1, Key: k2}, Op{K: "done", Idx: -1, Out: 0}, Op{K: "done", Idx: -1, Out: 0})
+			for j := 0; j < calls; j++ {
+				ops = append(ops, Op{K: "pick", M: 2, Key: k2, DlMs: 1}, Op{K: "adv", Mode: 1, Idx: -1, Eps: 1}, Op{K: "done", Idx: -1, Out: 2})
+			}
+			ops = append(ops, Op{K: "state", Sel: 5, Key: k2, St: 4}, Op{K: "state", Sel: 4, Key: k2, St: 2},
+				Op{K: "state", Sel: 5, Key: k, St: rapid.SampledFrom([]int{1, 3, 0}).Draw(t, "rdown")})
+			return append(ops, Op{K: "pick", M: 2, Key: k}, Op{K: "pick", M: 2, Key: k}, Op{K: "pick", M: 0})
 		case "bindacross":
 			// a BIND stays in flight while its channel is refreshed (through keyed deadline calls that follow it
 			// there), then completes; then the key is used
@@ -484,7 +504,7 @@ var Profiles = map[string]*Profile{
 	"detector": {Name: "detector", Min: [2]int{1, 3}, Max: [2]int{1, 3}, WM: []int{100, 100, 2}, UdMs: []int64{0, 1, 7, 100, 60000, 1 << 31, 1<<32 - 1}, UdCalls: []int{0, 1, 2, 3, 4}, Strict: 50, Shutdown: true, RR: 20,
 		W: map[string]int{"resolve": 1, "state": 5, "pick": 8, "done": 8, "adv": 4, "failnew": 3, "allready": 2, "decall": 24, "readyrepl": 10, "refreshcycle": 10, "stalede": 8, "rrstraddle": 4}, Methods: []int{0, 0, 2, 1}},
 	"fallback": {Name: "fallback", Min: [2]int{2, 4}, Max: [2]int{2, 4}, WM: []int{1, 2, 3}, Fallback: 100, UdMs: []int64{0, 7, 100}, UdCalls: []int{1}, Strict: 50,
-		W: map[string]int{"resolve": 1, "state": 8, "pick": 20, "done": 6, "adv": 1, "allready": 3, "bindflow": 10, "decall": 5, "readyrepl": 6, "staledown": 6, "saturate": 2, "fbflow": 16, "affswap": 2, "bindacross": 1}, Methods: []int{0, 2, 2, 2, 2, 5, 3, 1}},
+		W: map[string]int{"resolve": 1, "state": 8, "pick": 20, "done": 6, "adv": 1, "allready": 3, "bindflow": 10, "decall": 5, "readyrepl": 6, "staledown": 6, "saturate": 2, "fbflow": 16, "affswap": 2, "bindacross": 1, "resurrect": 4}, Methods: []int{0, 2, 2, 2, 2, 5, 3, 1}},
 	"rr": {Name: "rr", Min: [2]int{1, 6}, Max: [2]int{1, 6}, WM: []int{1, 2, 100}, Fallback: 20, UdMs: []int64{0, 7, 100}, UdCalls: []int{1}, RR: 100, Strict: 50,
 		W: map[string]int{"resolve": 1, "state": 12, "pick": 30, "done": 8, "adv": 4, "cancel": 4, "allready": 3, "decall": 3, "readyrepl": 4, "staledown": 5, "saturate": 1}, Methods: []int{1, 1, 1, 1, 4, 0, 2}},
 	"addresses": {Name: "addresses", Min: [2]int{1, 3}, Max: [2]int{1, 4}, WM: []int{1, 2}, UdMs: []int64{7, 100}, UdCalls: []int{1}, Strict: 30, Shutdown: true,
